@@ -125,6 +125,14 @@ impl Rollback {
                 Ok(())
             },
         )?;
+        #[cfg(nomt_verif)]
+        let seglog = {
+            let mut seglog = seglog;
+            if let Some(size) = crate::verif_hook::rollback_segment_size() {
+                seglog.verif_set_max_segment_size(size);
+            }
+            seglog
+        };
         // The start of the live range in the manifest lags one sync behind the in-memory log: the
         // delta discarded by the last `writeout_start` is still inside the recorded range. Do not
         // bring it back, the log never holds more than `max_rollback_log_len` deltas.
